@@ -807,6 +807,64 @@ def run(items):
 ''', [("run", [([("a", 1), ("b", 2), ("c", 3)],), ([],)])])
 
 
+# ---- an object standing in for a closure (callable object with state in attributes)
+case('''
+class _Runner:
+    """tick: call back and re-arm"""
+    def __init__(self, loop, interval, start, callback):
+        self.loop = loop
+        self.interval = interval
+        self.start = start
+        self.callback = callback
+
+    def arm(self, handle):
+        if self.interval == 0:
+            handle["delegate"] = self.loop.soon(self, handle)
+        else:
+            handle["delegate"] = self.loop.at(self.start + self.interval, self, handle)
+
+    def __call__(self, handle):
+        r = self.callback()
+        if r and handle["delegate"] is not None:
+            handle["delegate"] = self.loop.at(self.interval, self, handle)
+        else:
+            handle["delegate"] = None
+
+class _Counter:
+    def __init__(self, n):
+        self.n = n
+    def bump(self):
+        self.n += 1
+        return self.n
+
+class Loop:
+    def __init__(self):
+        self.q = []
+    def soon(self, f, h):
+        self.q.append((0, f, h)); return len(self.q)
+    def at(self, when, f, h):
+        self.q.append((when, f, h)); return len(self.q)
+
+def run(interval, results):
+    loop = Loop()
+    results = list(results)
+    start = 100
+    handle = {"delegate": None}
+    _Runner(loop, interval, start, lambda: results.pop(0) if results else 0).arm(handle)
+    start = -1
+    log = []
+    while loop.q and len(log) < 10:
+        when, f, h = loop.q.pop(0)
+        log.append(when)
+        f(h)
+    return log, handle
+
+def run2():
+    c = _Counter(5)
+    return c.bump(), c.bump()
+''', [("run", [(0, [1, 1, 0]), (7, [1, 0]), (3, [])]), ("run2", [()])])
+
+
 def outcome(ns, fn, args):
     import copy
     try:
